@@ -258,14 +258,14 @@ def ch_e2e(ctx, cases=None) -> Channel:
     given = cases
     cases = []
     for stream in ("bbb", "tears", "syn1", "syn2", "syn3", "syn4", "syn5", "syn6", "syn7", "syn8", "syn9", "bbbd",
-                   "synshort", "synlong", "synday", "syn10", "synbig"):
+                   "synshort", "synlong", "synday", "syn10", "synbig", "sy$n"):
         for name, mode in temps:
             opts = []
             if rng.random() < .5 and mode == "vod":
                 opts.append("timeline=1")
             if rng.random() < .3:
                 opts.append("abr=0")
-            if rng.random() < .3:
+            if rng.random() < .3 or "$" in stream:
                 opts.append("base=0")
             # options that do not change what a static manifest enumerates but travel with its media URLs
             for k, vals, p_ in (("acodec", ["ec-3", "any"], .15), ("events", ["ping"], .15), ("bugs", ["saio"], .1),
@@ -281,6 +281,9 @@ def ch_e2e(ctx, cases=None) -> Channel:
         picked = []
         for stream in dict.fromkeys(c[0] for c in cases):
             mine = [c for c in cases if c[0] == stream]
+            if "$" in stream:
+                picked += mine          # every template and mode for the directory that needs escaping
+                continue
             for want in (lambda c: c[2] == "vod" and "timeline=1" not in c[1],
                          lambda c: c[2] == "vod" and "timeline=1" in c[1],
                          lambda c: c[2] == "odvod"):
